@@ -28,12 +28,17 @@ func runC02(c *Ctx) {
 	c.Rule("C02-R5", "slices.Max/Min only on non-empty slices", 1)
 	c.Rule("C02-R6", "optional pointers dereferenced only under a guard", 50)
 	c.Rule("C02-R9", "regexp.MustCompile only on constants, quoted text or validated config", 5)
+	c.Rule("C02-R10", "line accounting: rule line ranges are ordered, the reader consumes whole lines", 12)
 
 	c02Typestate(c)
 	c02Gate(c)
 	c02Assertions(c)
 	c02IndexMinusOne(c)
 	c02NonStrictBounds(c)
+	c02ColumnClamp(c)
+	c02SplitIndex(c)
+	c06Lines(c, "C02-R10")
+	c02WholeLines(c)
 	c02EmptyReducers(c)
 	c02OptionalPointers(c)
 	c02MustCompile(c)
@@ -771,4 +776,272 @@ func c02AssertIdiom(p *Prog, fi *FuncInfo, pm map[ast.Node]ast.Node, ta *ast.Typ
 		}
 	}
 	return ""
+}
+
+// c02ColumnClamp: in the position reconstruction (package internal/diags) a
+// source line is only ever sliced from a column that was bounded by the length
+// of that very line earlier in the same pass: an assignment
+// `col = min(len(line), col)` (either argument order) or a comparison of col
+// with len(line) lies on every path from the function entry to the slice.
+// Whether later increments stay inside the line is arithmetic and not decided.
+func c02ColumnClamp(c *Ctx) {
+	p := c.P
+	dp := p.Pkg("internal/diags")
+	if dp == nil {
+		c.Undecided("C02-R4", "anchor:internal/diags", token.NoPos, "package not found")
+		return
+	}
+	n := 0
+	for _, fi := range p.AllFuncs() {
+		if fi.Pkg != dp || fi.Decl.Body == nil || p.IsTestFile(fi.Decl.Pos()) {
+			continue
+		}
+		info := fi.Pkg.TypesInfo
+		var fl *Flow
+		seq := 0
+		ast.Inspect(fi.Decl.Body, func(nd ast.Node) bool {
+			se, ok := nd.(*ast.SliceExpr)
+			if !ok || se.Low == nil {
+				return true
+			}
+			// X is an element of a []string (a source line)
+			ix, ok := ast.Unparen(se.X).(*ast.IndexExpr)
+			if !ok {
+				return true
+			}
+			if t := info.TypeOf(ix.X); t == nil || t.String() != "[]string" {
+				return true
+			}
+			if _, isConst := constInt(info, se.Low); isConst {
+				return true
+			}
+			// the column variable of the low bound
+			var col types.Object
+			ast.Inspect(se.Low, func(m ast.Node) bool {
+				if id, ok := m.(*ast.Ident); ok && col == nil {
+					if v, isVar := info.Uses[id].(*types.Var); isVar {
+						col = v
+					}
+				}
+				return true
+			})
+			if col == nil {
+				return true
+			}
+			n++
+			seq++
+			line := exprStr(se.X)
+			isBound := func(x ast.Node) bool {
+				found := false
+				inspectNoLit(x, func(m ast.Node) bool {
+					switch y := m.(type) {
+					case *ast.AssignStmt:
+						// col = min(len(line), col)
+						if len(y.Lhs) == 1 && len(y.Rhs) == 1 && isObj(info, y.Lhs[0], col) {
+							if call, ok := ast.Unparen(y.Rhs[0]).(*ast.CallExpr); ok {
+								if id, ok := call.Fun.(*ast.Ident); ok && id.Name == "min" && len(call.Args) == 2 {
+									a0, a1 := exprStr(call.Args[0]), exprStr(call.Args[1])
+									if (a0 == "len("+line+")" && isObj(info, call.Args[1], col)) || (a1 == "len("+line+")" && isObj(info, call.Args[0], col)) {
+										found = true
+									}
+								}
+							}
+						}
+					case *ast.BinaryExpr:
+						switch y.Op {
+						case token.LSS, token.LEQ, token.GTR, token.GEQ:
+							l, r := exprStr(y.X), exprStr(y.Y)
+							if (l == "len("+line+")" && isObj(info, y.Y, col)) || (r == "len("+line+")" && isObj(info, y.X, col)) {
+								found = true
+							}
+						}
+					}
+					return true
+				})
+				return found
+			}
+			if fl == nil {
+				fl = p.NewFlow(fi)
+			}
+			ok2 := false
+			for _, sm := range fl.Find(func(x ast.Node) bool { return x == ast.Node(se) }) {
+				target := sm.Site
+				ok2, _ = fl.MustPass(fl.Entry(), func(s Site) bool { return s == target }, false, isBound)
+			}
+			c.Check(ok2, "C02-R4", fi.Name+":source line sliced from a bounded column #"+itoa(seq), se.Pos(), "bounded by len("+line+") on every path",
+				"`"+exprStr(se)+"` slices a source line from a column that no statement on the way bounds by the length of that line: a continuation line shorter than the value's indentation (whitespace-only line, lone \\r of a CRLF file) panics with slice bounds out of range")
+			return true
+		})
+	}
+	c.Check(n >= 2, "C02-R4", "source-line slices enumerated", token.NoPos, itoa(n), "expected at least 2 slices of source lines in internal/diags, found "+itoa(n))
+}
+
+// c02WholeLines: the content reader fills its line buffer with a call that
+// returns a whole line whatever its length ((*bufio.Reader).ReadBytes or
+// ReadString). ReadSlice/ReadLine hand out at most one buffer (4096 bytes):
+// a longer line would be counted as several lines, every later line number
+// drifts past the end of the file and the console reporter indexes out of range.
+func c02WholeLines(c *Ctx) {
+	fi := c.MustFunc("C02-R10", "internal/parser.ContentReader.readNextLine")
+	if fi == nil {
+		return
+	}
+	info := fi.Pkg.TypesInfo
+	n := 0
+	ast.Inspect(fi.Decl.Body, func(nd ast.Node) bool {
+		as, ok := nd.(*ast.AssignStmt)
+		if !ok || len(as.Rhs) != 1 || len(as.Lhs) < 1 || !fieldSel(info, as.Lhs[0], "internal/parser.ContentReader", "buf") {
+			return true
+		}
+		call, ok := ast.Unparen(as.Rhs[0]).(*ast.CallExpr)
+		if !ok {
+			return true
+		}
+		fn := Callee(info, call)
+		if fn == nil || fn.Pkg() == nil || fn.Pkg().Path() != "bufio" {
+			return true
+		}
+		n++
+		okFn := fn.Name() == "ReadBytes" || fn.Name() == "ReadString"
+		c.Check(okFn, "C02-R10", "readNextLine:line buffer filled by a whole-line read", as.Pos(), "bufio.Reader."+fn.Name(),
+			"the line buffer is filled with bufio.Reader."+fn.Name()+", which returns at most one internal buffer: a physical line longer than that is counted as two lines, TotalLines and every later line number drift, and reports point past the end of the file (index out of range in the console reporter)")
+		return true
+	})
+	c.Check(n == 1, "C02-R10", "readNextLine:one bufio read fills the buffer", fi.Decl.Pos(), "one", itoa(n)+" bufio reads into r.buf")
+}
+
+// c02SplitIndex: a slice obtained from strings.Split / strings.Fields /
+// bytes.Split has a data-dependent length. Indexing it with anything but a
+// constant that a dominating length test covers, or the key of a range over
+// that very slice, needs a comparison of the index with len(slice) on the way
+// (loop condition or enclosing guard).
+func c02SplitIndex(c *Ctx) {
+	p := c.P
+	n := 0
+	for _, fi := range p.AllFuncs() {
+		if fi.Decl.Body == nil || p.IsTestFile(fi.Decl.Pos()) {
+			continue
+		}
+		info := fi.Pkg.TypesInfo
+		// locals defined by a split
+		splits := map[types.Object]bool{}
+		splitNonEmpty := map[types.Object]bool{}
+		ast.Inspect(fi.Decl.Body, func(nd ast.Node) bool {
+			as, ok := nd.(*ast.AssignStmt)
+			if !ok || len(as.Lhs) != 1 || len(as.Rhs) != 1 {
+				return true
+			}
+			call, ok := ast.Unparen(as.Rhs[0]).(*ast.CallExpr)
+			if !ok {
+				return true
+			}
+			fn := Callee(info, call)
+			if fn == nil || fn.Pkg() == nil || (fn.Pkg().Path() != "strings" && fn.Pkg().Path() != "bytes") {
+				return true
+			}
+			switch fn.Name() {
+			case "Split", "SplitN", "SplitAfter", "Fields", "FieldsFunc":
+				if id, ok := as.Lhs[0].(*ast.Ident); ok {
+					o := info.Defs[id]
+					if o == nil {
+						o = info.Uses[id]
+					}
+					if o != nil {
+						splits[o] = true
+						// with a non-empty separator Split/SplitN/SplitAfter return at least one element
+						if strings.HasPrefix(fn.Name(), "Split") && len(call.Args) >= 2 {
+							if sep, isC := constString(info, call.Args[1]); isC && sep != "" {
+								splitNonEmpty[o] = true
+							}
+						}
+					}
+				}
+			}
+			return true
+		})
+		if len(splits) == 0 {
+			continue
+		}
+		pm := parentMap(fi.Decl.Body)
+		seq := 0
+		ast.Inspect(fi.Decl.Body, func(nd ast.Node) bool {
+			ix, ok := nd.(*ast.IndexExpr)
+			if !ok {
+				return true
+			}
+			xid, ok := ast.Unparen(ix.X).(*ast.Ident)
+			if !ok || !splits[info.Uses[xid]] {
+				return true
+			}
+			xobj := info.Uses[xid]
+			if _, isConst := constInt(info, ix.Index); isConst {
+				return true // constant indexes are covered by the length-guard rules above (strings.SplitN arity, len tests)
+			}
+			// derived from the slice's own length (`xs[len(xs)-1]`): Split* never returns an empty slice
+			if mentionsLenOf(info, ix.Index, xobj) && splitNonEmpty[xobj] {
+				return true
+			}
+			// index variable
+			var iv types.Object
+			ast.Inspect(ix.Index, func(m ast.Node) bool {
+				if id, ok := m.(*ast.Ident); ok && iv == nil {
+					if v, isVar := info.Uses[id].(*types.Var); isVar {
+						iv = v
+					}
+				}
+				return true
+			})
+			if iv == nil {
+				return true
+			}
+			// range key over the same slice?
+			bounded := ""
+			for cur := pm[ast.Node(ix)]; cur != nil; cur = pm[cur] {
+				switch l := cur.(type) {
+				case *ast.RangeStmt:
+					if k, ok := l.Key.(*ast.Ident); ok && info.Defs[k] == iv && isObj(info, l.X, xobj) {
+						bounded = "range key over the slice"
+					}
+				case *ast.ForStmt:
+					if l.Cond != nil && mentionsLenOf(info, l.Cond, xobj) && mentionsObj(info, l.Cond, iv) {
+						bounded = "loop condition compares with len"
+					}
+				case *ast.IfStmt:
+					if mentionsLenOf(info, l.Cond, xobj) && mentionsObj(info, l.Cond, iv) {
+						bounded = "guarded by a comparison with len"
+					}
+				}
+			}
+			n++
+			seq++
+			c.Check(bounded != "", "C02-R4", fi.Name+":"+exprStr(ix)+" index into a split result is bounded #"+itoa(seq), ix.Pos(), bounded,
+				"`"+exprStr(ix)+"` indexes the result of a split, whose length depends on the data, with `"+exprStr(ix.Index)+"`, and nothing on the way compares that index with len("+xid.Name+"): when the index comes from elsewhere (for example YAML line numbers, which also count bare \\r line breaks) it can exceed the slice — index out of range")
+			return true
+		})
+	}
+	c.Ok("C02-R4", "indexes into split results enumerated", token.NoPos, itoa(n)+" site(s)")
+}
+
+func mentionsObj(info *types.Info, e ast.Expr, o types.Object) bool {
+	found := false
+	ast.Inspect(e, func(m ast.Node) bool {
+		if id, ok := m.(*ast.Ident); ok && info.Uses[id] == o {
+			found = true
+		}
+		return true
+	})
+	return found
+}
+
+func mentionsLenOf(info *types.Info, e ast.Expr, o types.Object) bool {
+	found := false
+	ast.Inspect(e, func(m ast.Node) bool {
+		if call, ok := m.(*ast.CallExpr); ok && len(call.Args) == 1 {
+			if id, ok := call.Fun.(*ast.Ident); ok && id.Name == "len" && isObj(info, call.Args[0], o) {
+				found = true
+			}
+		}
+		return true
+	})
+	return found
 }
